@@ -373,7 +373,7 @@ class ProgGen:
     # ------------------------------------------------------------------ faults
     def inject_fault(self, files, case):
         rng = self.rng
-        kind = rng.choice(FAULTS)
+        kind = self.prof.get('force_fault') or rng.choice(FAULTS)
         main = files[0]['stmts']
         # only at nesting depth 0: the implementation parses (and may reject) lines of unselected branches too,
         # which the property does not speak about and the model does not mirror
@@ -516,13 +516,21 @@ class ProgGen:
             # only if it directly follows; either way a legal program)
             m = files[0]['stmts']
             pos = [i for i, st in enumerate(m) if st[0] == 'include' and st[1] == 2]
-            if pos:
+            # moving the include earlier must not put a reference to a zone created in between into an unselected branch
+            # (the implementation parses unselected lines and rejects unknown zones there; DESIGN.md section 8)
+            uses_created = any((st[0] == 'memzone' and st[1].startswith('zc')) or (st[0] == 'org' and st[2] and st[2].startswith('zc'))
+                               for st in files[2]['stmts'])
+            if pos and not uses_created:
                 del m[pos[0]]
                 files[1]['stmts'].insert(rng.randrange(len(files[1]['stmts']) + 1), ['include', 2, 'inc2.asm'])
                 self.nested = True
         case = {'cfg': self.cfg, 'files': files, 'include_dirs': ['lib'], 'extra_files': [], 'fault': None}
         if rng.random() < self.prof.get('p_fault', 0.12):
-            case['fault'] = self.inject_fault(files, case)
+            import json as _json
+            before = _json.dumps([files, case['extra_files']], default=str)
+            kind = self.inject_fault(files, case)
+            # a fault that needs something the program does not have (a second file, a label ...) changes nothing
+            case['fault'] = kind if _json.dumps([files, case['extra_files']], default=str) != before else None
         o = {'start': 0, 'end': None, 'fill': rng.choice([0, 0, 0xEE, 255, 0x1AB])}
         if rng.random() < self.prof.get('p_window', 0.35):
             base = self.cfg['origin']
